@@ -129,6 +129,20 @@ FairSpec == Init /\ [][Next]_vars
             /\ WF_vars(CopGet \/ CopTell \/ CopSeekEnd \/ CopWrite \/ CopSeekBack \/ CopProcExit \/ CopDone)
             /\ WF_vars(MainProcEnd \/ MainDone) /\ WF_vars(ReadLines(FALSE) /\ mainPc = "final")
 
+(* ---- the judgement on what the caller received (used by CaptureObsTrace) ------------------- *)
+\* feat: the scenario's features; conformant: every view equals what the final stage wrote.
+\* Deviations on the text views only (the raw bytes and the exit code stay right):
+ObsDevEnabled(d, feat) ==
+  CASE d = "Dev_DecodePerRead" ->       \* text is decoded and CR/CRLF-normalised per read, not per stream: a multi-byte
+                                        \* character or a CRLF split by a read boundary is mangled / doubled
+         feat.payload \in {"utf8", "crlf"} /\ feat.size > 1024 /\ feat.view \in {"out", "iter"}
+    [] d = "Dev_DollarKeepsEscapes" ->  \* $() does not strip terminal escape sequences (the other text views do)
+         feat.payload = "ansi" /\ feat.view = "dollar"
+    [] OTHER -> FALSE
+ObsJudge(feat, rawok, ok) ==
+  \/ ok
+  \/ \E d \in Deviations : ObsDevEnabled(d, feat) /\ rawok /\ ~ok
+
 (* ---- properties ---------------------------------------------------------------------------- *)
 IsPrefix(a, b) == Len(a) <= Len(b) /\ a = SubSeq(b, 1, Len(a))
 \* what the caller has received is always a prefix of what was written: no invention, duplication, reordering
